@@ -23,7 +23,7 @@ import pydiverse.common as pc
 from pydiverse.transform._internal.ops import ops
 from pydiverse.transform._internal.ops.op import Ftype, Operator
 from pydiverse.transform._internal.tree import types as T
-from pydiverse.transform._internal.tree.col_expr import Col, ColFn
+from pydiverse.transform._internal.tree.col_expr import Cast, Col, ColFn
 from sim import seams
 
 
@@ -152,6 +152,17 @@ def lca_outcome(ts) -> str:
         return "!" + type(e).__name__
 
 
+def cast_outcome(src, tgt) -> str:
+    try:
+        c = Cast(Col("c", None, _DUMMY_UUID, src, Ftype.ELEMENT_WISE), tgt)
+        d = c.dtype()
+    except T.DataTypeError:
+        return "reject"
+    except Exception as e:  # noqa: BLE001
+        return "!" + type(e).__name__
+    return "= " + tname(d)
+
+
 def compute_table(only_ops=None, with_colfn=True):
     """-> {opname: {sigkey: (resolution outcome, colfn outcome)}}"""
     U = universe()
@@ -167,6 +178,14 @@ def compute_table(only_ops=None, with_colfn=True):
                 o2 = colfn_outcome(op, sig) if (with_colfn and ar >= 1) else ""
                 rows[key] = (o1, o2)
         table[name] = rows
+    if not only_ops or "cast" in only_ops:
+        # explicit casts: acceptance per (source type, target type); sources plain and const
+        rows = {}
+        targets = [t for t in U if not isinstance(t, T.Const) and type(t) not in (pc.Int, pc.Float, pc.NullType)]
+        for src in U:
+            for tgt in targets:
+                rows[f"{tname(src)},{tname(tgt)}"] = (cast_outcome(src, tgt), "")
+        table["cast"] = rows
     if not only_ops or "lca_type" in only_ops:
         plain = [t for t in U if not isinstance(t, T.Const)]
         rows = {}
@@ -212,6 +231,8 @@ def check_relations(table):
             res_fam = family(o1[2:])
             # O13.3 uniformity
             for i, p in enumerate(parts):
+                if name == "cast" and i > 0:
+                    continue  # the second part is the target type of the cast, not an argument
                 const = p.startswith("const ")
                 b = p.removeprefix("const ")
                 subs = SIZED_INT if b == "Int" else sized_float if b == "Float" else None
@@ -224,12 +245,14 @@ def check_relations(table):
                         continue
                     if not r2[0].startswith("= "):
                         out.append(dict(oracle="O13.3", op=name, sig=k2, what=f"`{name}`({key}) is accepted but ({k2}) is {r2[0]}", features=dict(kind="rejected", generic=b)))
-                    elif family(r2[0][2:]) != res_fam and not (res_fam in ("int", "float") and family(r2[0][2:]) in ("int", "float") and res_fam == family(r2[0][2:])):
+                    elif name != "cast" and family(r2[0][2:]) != res_fam and not (res_fam in ("int", "float") and family(r2[0][2:]) in ("int", "float") and res_fam == family(r2[0][2:])):
                         out.append(dict(oracle="O13.3", op=name, sig=k2, what=f"`{name}`({key}) -> {o1[2:]} but ({k2}) -> {r2[0][2:]}: different family", features=dict(kind="family", generic=b)))
             # O13.4 const accepted wherever a column is, same base result
             if parts and not any(p.startswith("const ") for p in parts):
                 variants = [[("const " + p) if j == i else p for j, p in enumerate(parts)] for i in range(len(parts))]
                 variants.append(["const " + p for p in parts])
+                if name == "cast":
+                    variants = [["const " + parts[0], parts[1]]]
                 for v in variants:
                     k2 = ",".join(v)
                     r2 = rows.get(k2)
